@@ -377,6 +377,7 @@ class PlainModel:
     def __init__(self, nproj=2):
         self.projects = [dict() for _ in range(nproj)]
         self.foreign = [set() for _ in range(nproj)]
+        self.foreign_files = [set() for _ in range(nproj)]   # planted non-directories (files, dangling links)
         self.h = {}
         self.next_group = 0
         self.known = []  # known-finding classes hit by the last op (strict spec differs from real dependency)
@@ -406,6 +407,10 @@ class PlainModel:
         if old in proj:
             if new in proj:
                 return "DestinationExistsError"
+            if new in self.foreign_files[hd["p"]]:
+                # a file (or dangling link) occupies the name of the new id: the directory cannot be renamed onto
+                # it; the operation fails with an OSError and NOTHING changes (rollback)
+                return "OSError"
             job = proj.pop(old)
             job["sp"] = copy.deepcopy(new_sp)
             proj[new] = job
@@ -564,6 +569,8 @@ class PlainModel:
             return "ok"
         if k == "plant":
             self.foreign[op[1]].add(op[2])
+            if len(op) > 3 and op[3] in ("file", "link"):
+                self.foreign_files[op[1]].add(op[2])
             return "ok"
         raise ValueError(op)
 
@@ -878,6 +885,9 @@ def lockstep(ops, ctx, nproj=2, check_handles=True, stop_at_first=True):
             r0, m0 = real.split(":")[0], model.split(":")[0]
             if k == "openid":
                 r0, m0 = real, model
+            blocked = (model == "OSError")
+            if blocked and r0.startswith("OSError("):
+                r0 = "OSError"
             if r0 != m0:
                 failures.append("step %d %s: signac %s, reference model %s" % (i, json.dumps(op), real, model))
             # a failed op must leave the handle table of the reference consistent with the real one
@@ -962,11 +972,16 @@ def lockstep(ops, ctx, nproj=2, check_handles=True, stop_at_first=True):
                 rw.lazy.discard(op[1])
                 cached = plain(rw.h[op[1]].statepoint())
             names = sorted(n for n in pm.h if n not in stale and n not in tainted and n in rw.h)
-            rec["mop"] = model_op(op, cached) + " @" + ",".join(names)
+            if blocked:   # for the Lean model: an operation refused without effect
+                rec["mop"] = model_op(["spbad", op[1], {}], None) + " @" + ",".join(names)
+            else:
+                rec["mop"] = model_op(op, cached) + " @" + ",".join(names)
             views = rw.handle_views() if not check_handles else views
             hv = {n: {"p": views[n].get("proj"), "id": views[n].get("id")} for n in names if n in views}
             rres = real.split(":")[0]
             if k == "spbad" and rres == "InvalidKeyError":
+                rres = "KeyError"
+            if blocked and rres.startswith("OSError"):
                 rres = "KeyError"
             if k == "openid" and real.startswith("ok:"):
                 rres = "ok=" + real[3:]
